@@ -661,13 +661,25 @@ def _text_worker(arg):
     return list(seen.values()), n
 
 
+def spec_text_cases(ctx):
+    """the records of MC_ExtKeyText (run once): every (network, family, form, key shape) with its text term.
+    Also fills _G["spec_versions"][(net, family, private)] = the four version bytes the SPEC demands."""
+    if "text_recs" not in _G:
+        r = ctx.tlc("MC_ExtKeyText", "MC_ExtKeyText", workers=4, timeout=600)
+        recs = [x for x in r.records if isinstance(x, dict) and x.get("k") == "text"]
+        if not recs:
+            raise MachineryError("MC_ExtKeyText printed no case")
+        _G["text_recs"] = recs
+        _G["spec_versions"] = {(x["net"], x["fam"], bool(x["prv"])): bytes(x["text"]["a"]["p"][0]["v"]) for x in recs}
+    return _G["text_recs"]
+
+
 def replay_text(ctx, seeds):
     ok, bad = available_networks()
     _G["nets_ok"] = ok
     if bad:
         ctx.assumptions.append("networks %s need the groestlcoin_hash package for their Base58 checksum: their text form is not exercised (L3)" % ",".join(bad))
-    r = ctx.tlc("MC_ExtKeyText", "MC_ExtKeyText", workers=4, timeout=600)
-    recs = [x for x in r.records if isinstance(x, dict) and x.get("k") == "text"]
+    recs = spec_text_cases(ctx)
     from pycoin.networks.registry import network_codes
     spec_nets = {x["net"] for x in recs}
     if spec_nets != set(network_codes()):
@@ -752,19 +764,78 @@ def replay_electrum(ctx, cfg, seedtexts):
 
 # ------------------------------------------------------------------ 4. traces (code -> spec)
 class _HmacTap:
-    """stands in for the hmac module inside pycoin.key.bip32 / BIP32Node: records every call pycoin makes"""
+    """Records every HMAC computed through the stdlib while armed: hmac.HMAC (hence hmac.new) and the one-shot
+    hmac.digest are replaced in the hmac module itself for the duration of a recording, so it does not matter
+    which pycoin module imports hmac or how it calls it.  A caller that bound the names before (`from hmac import
+    new`) or computes HMAC by hand is simply not observed: the trace is then judged on the remaining obligations."""
 
     def __init__(self):
         import hmac
-        self.real = hmac
+        self.mod = hmac
         self.calls = []
+        self.armed = False
+        self.saved = None
 
-    def HMAC(self, key=None, msg=None, digestmod=None):
-        h = self.real.HMAC(key=key, msg=msg, digestmod=digestmod)
-        self.calls.append((bytes(key), bytes(msg), h.digest()))
-        return h
+    def install(self):
+        tap, mod = self, self.mod
+        real_HMAC, real_new, real_digest = mod.HMAC, mod.new, getattr(mod, "digest", None)
+        self.saved = (real_HMAC, real_new, real_digest)
 
-    new = HMAC
+        class TapHMAC(real_HMAC):
+            def __init__(self, key, msg=None, digestmod=""):
+                self._tap_key = bytes(key)
+                self._tap_msg = b""
+                real_HMAC.__init__(self, key, None, digestmod)
+                if msg is not None:
+                    self.update(msg)
+
+            def update(self, msg):
+                self._tap_msg += bytes(msg)
+                real_HMAC.update(self, msg)
+
+            def copy(self):
+                other = real_HMAC.copy(self)
+                other._tap_key, other._tap_msg = self._tap_key, self._tap_msg
+                return other
+
+            def digest(self):
+                d = real_HMAC.digest(self)
+                if tap.armed:
+                    tap.calls.append((self._tap_key, self._tap_msg, d, self.name))
+                return d
+
+            def hexdigest(self):
+                return self.digest().hex()
+
+        def new(key, msg=None, digestmod=""):
+            return TapHMAC(key, msg, digestmod)
+
+        def digest(key, msg, digest):
+            d = real_digest(key, msg, digest)
+            if tap.armed:
+                name = digest if isinstance(digest, str) else getattr(digest, "__name__", "").replace("openssl_", "")
+                tap.calls.append((bytes(key), bytes(msg), d, "hmac-" + name))
+            return d
+        mod.HMAC, mod.new = TapHMAC, new
+        if real_digest is not None:
+            mod.digest = digest
+
+    def uninstall(self):
+        if self.saved:
+            self.mod.HMAC, self.mod.new = self.saved[0], self.saved[1]
+            if self.saved[2] is not None:
+                self.mod.digest = self.saved[2]
+            self.saved = None
+
+    def run(self, f):
+        """f() with the tap armed -> (refused?, result, the sha512 calls made)"""
+        del self.calls[:]
+        self.armed = True
+        try:
+            rf, r = _refused(f)
+        finally:
+            self.armed = False
+        return rf, r, [(k, m, d) for k, m, d, name in self.calls if name == "hmac-sha512"]
 
 
 def _b58decode_check(t):
@@ -777,6 +848,15 @@ def _b58decode_check(t):
     if hashlib.sha256(hashlib.sha256(body).digest()).digest()[:4] != chk:
         raise MachineryError("pycoin produced a text with a bad checksum: %r" % t)
     return body
+
+
+def _hmac_sha512(key, msg):
+    """RFC 2104 on hashlib only (the recorder replaces names inside the hmac module while it runs)"""
+    if len(key) > 128:
+        key = hashlib.sha512(key).digest()
+    key = key.ljust(128, b"\0")
+    inner = hashlib.sha512(bytes(x ^ 0x36 for x in key) + msg).digest()
+    return hashlib.sha512(bytes(x ^ 0x5C for x in key) + inner).digest()
 
 
 def _conc(key_obj):
@@ -792,7 +872,6 @@ _DUMMY = {"depth": 0, "pfp": [], "cn": [0, 0], "chain": [], "k": [], "K": []}
 def _facts(parents, calls, extra_scalars=()):
     """oracle tables for one event.  hmac: the calls pycoin made (digest re-computed here);
     pub / add / h160: computed by the reference evaluator for the keys involved."""
-    import hmac
     F = {"hmac": [], "pub": [], "add": [], "h160": []}
     seen = set()
     pubs = {}
@@ -809,7 +888,7 @@ def _facts(parents, calls, extra_scalars=()):
             seen.add(("h", K))
             F["h160"].append([list(K), list(hashlib.new("ripemd160", hashlib.sha256(K).digest()).digest())])
     for key, msg, out in calls:
-        if hmac.new(key, msg, hashlib.sha512).digest() != out:
+        if _hmac_sha512(key, msg) != out:
             raise MachineryError("intercepted HMAC digest is not HMAC-SHA512(key, msg)")
         F["hmac"].append([list(key), list(msg), list(out)])
     for c in parents:
@@ -840,21 +919,19 @@ def _facts(parents, calls, extra_scalars=()):
     return F
 
 
-def record_traces(seed, count, max_events, nets_ok):
-    """seeded random sessions on pycoin, far beyond the enumerated grid"""
-    import pycoin.key.bip32 as m1
-    import pycoin.key.BIP32Node as m2
+def record_traces(seed, count, max_events, nets_ok, fam_nets=None, stats=None):
+    """seeded random sessions on pycoin, far beyond the enumerated grid.
+    fam_nets: family -> networks defining it (from the SPEC's table); stats: dict receiving counters."""
     from pycoin.networks.registry import network_for_netcode
     tap = _HmacTap()
-    old = (m1.hmac, m2.hmac)
-    m1.hmac = m2.hmac = tap
     rnd = random.Random(seed)
-    fam_nets = {"bip32": nets_ok, "bip49": [], "bip84": []}
-    for c in nets_ok:
-        pa = network_for_netcode(c).parse
-        for f in ("bip49", "bip84"):
-            if getattr(pa, "_%s_prv_prefix" % f, None) is not None:
-                fam_nets[f].append(c)
+    if fam_nets is None:
+        fam_nets = {"bip32": list(nets_ok), "bip49": [], "bip84": []}
+    fam_nets = {f: [c for c in v if c in nets_ok] for f, v in fam_nets.items()}
+    fams = [f for f in ("bip32", "bip32", "bip49", "bip84") if fam_nets.get(f)]
+    stats = stats if stats is not None else {}
+    stats.setdefault("hmac_obligations", 0)
+    stats.setdefault("hmac_obligations_unobserved", 0)
 
     def rindex():
         r = rnd.random()
@@ -865,7 +942,11 @@ def record_traces(seed, count, max_events, nets_ok):
         else:
             v = rnd.randrange(2 ** rnd.randrange(1, 32))
         return (rnd.random() < 0.45, v)
+
+    def kbytes(*concs):
+        return [bytes(c["k"]) for c in concs if c["k"]]
     traces = []
+    tap.install()
     try:
         for t in range(count):
             netsym = rnd.choice(nets_ok)
@@ -874,6 +955,7 @@ def record_traces(seed, count, max_events, nets_ok):
             objs = []           # python objects by number - 1
             info = []           # (netsym, family)
             ev = []
+            asked = set()       # derivations already requested in this session (a repeat needs no HMAC call)
 
             def number(o, ni):
                 for i, x in enumerate(objs):
@@ -882,10 +964,24 @@ def record_traces(seed, count, max_events, nets_ok):
                 objs.append(o)
                 info.append(ni)
                 return len(objs)
-            del tap.calls[:]
-            M = net.keys.bip32_seed(sd)
+
+            def obligation(parent, h, v, want, calls):
+                """one derivation that has to be explained: was its HMAC call seen?"""
+                req = (json.dumps(parent, sort_keys=True), h, v, want if want != "dflt" else ("prv" if parent["k"] else "pub"))
+                if req in asked:
+                    return
+                asked.add(req)
+                stats["hmac_obligations"] += 1
+                if not any(k == bytes(parent["chain"]) for k, m, d in calls):
+                    stats["hmac_obligations_unobserved"] += 1
+            rf, M, calls = tap.run(lambda: net.keys.bip32_seed(sd))
+            if rf:
+                raise MachineryError("bip32_seed raised on a %d-byte seed" % len(sd))
+            stats["hmac_obligations"] += 1
+            if not any(k == b"Bitcoin seed" for k, m, d in calls):
+                stats["hmac_obligations_unobserved"] += 1
             ev.append({"op": "master", "seed": list(sd), "res": number(M, (netsym, "bip32")), "node": _conc(M),
-                       "facts": _facts([], tap.calls, [bytes(_conc(M)["k"])])})
+                       "facts": _facts([], calls, kbytes(_conc(M)))})
             cur = 1
             for _ in range(rnd.randrange(6, max_events)):
                 o = cur if rnd.random() < 0.7 else rnd.randrange(1, len(objs) + 1)
@@ -893,16 +989,17 @@ def record_traces(seed, count, max_events, nets_ok):
                 parent = _conc(obj)
                 private = bool(parent["k"])
                 r = rnd.random()
-                del tap.calls[:]
                 if r < 0.45:
                     h, v = rindex()
                     want = rnd.choice(["prv", "pub", "dflt"]) if private else rnd.choice(["pub", "dflt"])
-                    rf, res = _refused(lambda: obj.subkey(i=v, is_hardened=h, as_private=WANT_ARG[want]))
+                    rf, res, calls = tap.run(lambda: obj.subkey(i=v, is_hardened=h, as_private=WANT_ARG[want]))
                     e = {"op": "derive", "o": o, "ix": [1 if h else 0, v], "want": want}
                     if rf:
-                        e.update(res=0, node=_DUMMY, facts=_facts([parent], tap.calls))
+                        e.update(res=0, node=_DUMMY, facts=_facts([parent], calls))
                     else:
-                        e.update(res=number(res, info[o - 1]), node=_conc(res), facts=_facts([parent], tap.calls))
+                        c = _conc(res)
+                        obligation(parent, h, v, want, calls)
+                        e.update(res=number(res, info[o - 1]), node=c, facts=_facts([parent], calls, kbytes(c)))
                         if parent["depth"] < 40:
                             cur = e["res"]
                     ev.append(e)
@@ -916,16 +1013,19 @@ def record_traces(seed, count, max_events, nets_ok):
                     if not private and rnd.random() < 0.8:
                         path = [(False, v) for h, v in path]
                     s = "/".join("%d%s" % (v, rnd.choice("Hp'") if h else "") for h, v in path) + (".pub" if rnd.random() < 0.3 else "")
-                    rf, res = _refused(lambda: obj.subkey_for_path(s))
-                    calls = list(tap.calls)
-                    # the intermediate keys (memoised by pycoin; fetched after the call)
-                    steps, node = [], obj
+                    rf, res, calls = tap.run(lambda: obj.subkey_for_path(s))
+                    # the intermediate keys (public API again; memoised by pycoin today, recomputed otherwise)
+                    steps, node, prev = [], obj, parent
                     for h, v in path:
-                        ok2, node = _refused(lambda: node.subkey(i=v, is_hardened=h))
-                        if ok2:
+                        rf2, node, more = tap.run(lambda: node.subkey(i=v, is_hardened=h))
+                        if rf2:
                             break
-                        steps.append(_conc(node))
-                    e = {"op": "path", "o": o, "s": list(s), "steps": steps, "facts": _facts([parent] + steps, calls + list(tap.calls))}
+                        calls = calls + more
+                        c = _conc(node)
+                        obligation(prev, h, v, "dflt", calls)
+                        steps.append(c)
+                        prev = c
+                    e = {"op": "path", "o": o, "s": list(s), "steps": steps, "facts": _facts([parent] + steps, calls, kbytes(*steps))}
                     if rf:
                         e.update(res=0, node=_DUMMY)
                     else:
@@ -934,9 +1034,8 @@ def record_traces(seed, count, max_events, nets_ok):
                             cur = e["res"]
                     ev.append(e)
                 else:
-                    fam = rnd.choice(["bip32", "bip32", "bip49", "bip84"])
-                    cands = [c for c in fam_nets[fam]]
-                    nsym = rnd.choice(cands)
+                    fam = rnd.choice(fams)
+                    nsym = rnd.choice(fam_nets[fam])
                     n2 = network_for_netcode(nsym)
                     prv = private and rnd.random() < 0.6
                     blob74 = obj.serialize(as_private=prv)
@@ -949,7 +1048,6 @@ def record_traces(seed, count, max_events, nets_ok):
                     rfam = fam if rnd.random() < 0.7 else rnd.choice(["bip32", "bip49", "bip84"])
                     rf, res = _refused(lambda: getattr(network_for_netcode(rnet).parse, rfam)(text))
                     if rf:
-                        raise_key = "raises"
                         ev.append({"op": "parse", "net": rnet, "fam": rfam, "blob": list(blob), "res": -1, "node": _DUMMY, "facts": _facts([], [])})
                     elif res is None:
                         ev.append({"op": "parse", "net": rnet, "fam": rfam, "blob": list(blob), "res": 0, "node": _DUMMY, "facts": _facts([], [])})
@@ -960,7 +1058,7 @@ def record_traces(seed, count, max_events, nets_ok):
                             cur = ev[-1]["res"]
             traces.append({"net": netsym, "ev": ev})
     finally:
-        m1.hmac, m2.hmac = old
+        tap.uninstall()
     return traces
 
 
@@ -994,7 +1092,16 @@ def first_unexplained(ctx, trace):
 
 def run_traces(ctx, count, max_events):
     ok, bad = available_networks()
-    traces = record_traces(ctx.seed * 6151 + 909, count, max_events, ok)
+    spec_text_cases(ctx)
+    fam_nets = {f: sorted({n for (n, ff, p) in _G["spec_versions"] if ff == f}) for f in ("bip32", "bip49", "bip84")}
+    stats = {}
+    traces = record_traces(ctx.seed * 6151 + 909, count, max_events, ok, fam_nets, stats)
+    ctx.extra["trace_hmac_obligations"] = stats["hmac_obligations"]
+    ctx.extra["trace_hmac_obligations_unobserved"] = stats["hmac_obligations_unobserved"]
+    if stats["hmac_obligations_unobserved"]:
+        ctx.log("traces: %d of %d HMAC obligations were not observed through the stdlib hmac entry points; those derivations are "
+                "judged on metadata only in the traces (the replays still check every field)" % (
+                    stats["hmac_obligations_unobserved"], stats["hmac_obligations"]))
     nev = sum(len(t["ev"]) for t in traces)
     ops = {}
     for t in traces:
@@ -1060,7 +1167,7 @@ def selftests(ctx, first_session, traces):
         e = nth(muts[2], "derive", lambda e: e["res"] > 0 and e["facts"]["hmac"])
         m = e["facts"]["hmac"][0][1]
         m[-4:] = m[-4:][::-1]                                    # the HMAC'd index bytes in the other order
-        e["facts"]["hmac"][0][2] = list(__import__("hmac").new(bytes(e["facts"]["hmac"][0][0]), bytes(m), hashlib.sha512).digest())
+        e["facts"]["hmac"][0][2] = list(_hmac_sha512(bytes(e["facts"]["hmac"][0][0]), bytes(m)))
         e = nth(muts[3], "text")
         e["blob"][4] ^= 1                                       # depth byte of the serialisation
         e = nth(muts[4], "derive", lambda e: e["res"] > 0)
@@ -1090,8 +1197,8 @@ def run(ctx):
         "subkey(as_private=True) on a public-only parent with a normal index is left unspecified (the property only demands refusal of hardened)",
         "strings outside the path-range grammar (and leading zeros for Electrum, which hashes the decimal text) carry no demand",
         "TLC/SANY, CPython"]
-    from pycoin.networks.registry import network_for_netcode
-    _G["versions"] = {s: (network_for_netcode(s).parse._bip32_prv_prefix, network_for_netcode(s).parse._bip32_pub_prefix)
+    spec_text_cases(ctx)
+    _G["versions"] = {s: (_G["spec_versions"][(s, "bip32", True)], _G["spec_versions"][(s, "bip32", False)])
                       for s in ("BTC", "XTN", "LTC", "DOGE")}
     # 0/2. trusted base and ground truth first
     if _only(ctx, "curve"):
